@@ -6,7 +6,6 @@ import (
 	"context"
 	"errors"
 	"fmt"
-	"maps"
 	"math"
 	"os"
 	"reflect"
@@ -1831,14 +1830,14 @@ func (m *Machine) ParseStates(states S) S {
 		}
 	}
 
-	if dups {
-		// only the known ones
-		return slicesFilter(slicesUniq(states), func(name string, _ int) bool {
-			_, ok := seen[name]
-			return ok
-		})
+	// only the known ones, in the order given
+	if !dups && len(seen) == len(states) {
+		return slices.Clone(states)
 	}
-	return slices.Collect(maps.Keys(seen))
+	return slicesFilter(slicesUniq(states), func(name string, _ int) bool {
+		_, ok := seen[name]
+		return ok
+	})
 }
 
 // VerifyStates verifies an array of state names and returns an error in case
